@@ -548,7 +548,7 @@ fn rand_u64(g: &mut Rng) -> u64 {
 }
 
 /// Every single edit of `w` over the parser's alphabet.
-fn near_misses(p: P, w: &str, out: &mut Vec<String>) {
+fn near_misses(p: P, w: &str, full_ascii: bool, out: &mut Vec<String>) {
     let chars: Vec<char> = w.chars().collect();
     let alpha = alphabet(p);
     for i in 0..=chars.len() {
@@ -571,6 +571,18 @@ fn near_misses(p: P, w: &str, out: &mut Vec<String>) {
                 s.extend(chars[i + 1..].iter());
                 if s != w {
                     out.push(s);
+                }
+            }
+            // the table-driven parsers (hex ids, flags, traceparent) index a table by byte value:
+            // substitute EVERY ASCII byte, control characters included, at every position
+            if full_ascii && matches!(p, P::Trace | P::Span | P::Flags | P::Tp) {
+                for b in 0u8..128 {
+                    let mut s: String = chars[..i].iter().collect();
+                    s.push(b as char);
+                    s.extend(chars[i + 1..].iter());
+                    if s != w {
+                        out.push(s);
+                    }
                 }
             }
         }
@@ -858,6 +870,46 @@ fn roundtrip_ids(r: &mut Report, g: &mut Rng) {
     }
 }
 
+/// The `&[u8]` entry points take arbitrary bytes, not only UTF-8: every byte value at every position of a
+/// well-formed id / flags text must be rejected unless it is a hex digit (and the id stays non-zero).
+fn raw_byte_substitutions(r: &mut Report, g: &mut Rng) {
+    let t = format!("{:032x}", rand_u128(g) | 1);
+    let s = format!("{:016x}", rand_u64(g) | 1);
+    let f = format!("{:02x}", g.below(256));
+    for (name, text) in [("trace_id", t), ("span_id", s), ("trace_flags", f)] {
+        let orig = text.as_bytes().to_vec();
+        for i in 0..orig.len() {
+            for b in 0u16..256 {
+                let b = b as u8;
+                let mut bytes = orig.clone();
+                bytes[i] = b;
+                r.eval();
+                r.observe(&format!("{}:raw-byte-substitutions", name), 1);
+                let got = catch(|| match name {
+                    "trace_id" => TraceId::try_from_hex_slice(&bytes).ok().map(|v| v.to_string()),
+                    "span_id" => SpanId::try_from_hex_slice(&bytes).ok().map(|v| v.to_string()),
+                    _ => TraceFlags::try_from_hex_slice(&bytes).ok().map(|v| v.to_string()),
+                });
+                let case = || json!({"parser": name, "entry": "try_from_hex_slice", "bytes": show_bytes(&bytes), "position": i, "byte": b});
+                let want = if b.is_ascii_hexdigit() && (name == "trace_flags" || bytes.iter().any(|c| *c != b'0')) {
+                    Some(String::from_utf8(bytes.clone()).unwrap().to_ascii_lowercase())
+                } else {
+                    None
+                };
+                match got {
+                    Err(m) => r.violation(&format!("C15:panic:{}:try_from_hex_slice:raw-byte", name), &format!("try_from_hex_slice panicked on {}: {}", show_bytes(&bytes), m), case()),
+                    Ok(g) if g != want => r.violation(
+                        &format!("C15:{}:{}:raw-byte", if want.is_none() { "accepts-malformed" } else { "rejects-well-formed" }, name),
+                        &format!("{}::try_from_hex_slice({}) = {:?}, expected {:?}", name, show_bytes(&bytes), g, want),
+                        case(),
+                    ),
+                    _ => {}
+                }
+            }
+        }
+    }
+}
+
 fn fixed_roundtrips(r: &mut Report) {
     // all 256 flag bytes
     for f in 0..=255u8 {
@@ -995,6 +1047,13 @@ fn main() {
         roundtrip_ids(r, &mut g);
     });
 
+    // 3b. every byte value at every position, through the byte-slice entry points
+    let n_raw = args.n(8, 200);
+    par_cases(&mut r, &args, n_raw, |i, r| {
+        let mut g = Rng::stream(seed, &[15, 5, i]);
+        raw_byte_substitutions(r, &mut g);
+    });
+
     // 4. lexicographic order
     let n_ord = args.n(8, 200);
     par_cases(&mut r, &args, n_ord, |i, r| {
@@ -1014,7 +1073,7 @@ fn main() {
             r.sample(move || json!({"parser": p.name(), "well_formed": w2, "category": "seed text for near-misses"}));
         }
         let mut nm = Vec::new();
-        near_misses(p, &w, &mut nm);
+        near_misses(p, &w, i % 64 < 8, &mut nm);
         for s in &nm {
             check(r, p, s, "near-miss-1", true);
         }
@@ -1023,7 +1082,7 @@ fn main() {
             let a = g.pick(&nm).clone();
             let mut nm2 = Vec::new();
             if a.chars().count() <= 70 {
-                near_misses(p, &a, &mut nm2);
+                near_misses(p, &a, false, &mut nm2);
                 if !nm2.is_empty() {
                     let s = g.pick(&nm2).clone();
                     check(r, p, &s, "near-miss-2", false);
